@@ -361,8 +361,8 @@ func genP13(g *Gen, p *Program) {
 			ep.Mode = uint8((int(last) + g.R.Range(1, 5)) % 6)
 		}
 		last = ep.Mode
-		kinds := []string{"MarshalJSON", "UnmarshalJSON", "JSONRT", "JSONDoc", "Scribble"}
-		weights := []int{3, 5, 3, 3, 1}
+		kinds := []string{"MarshalJSON", "UnmarshalJSON", "JSONRT", "JSONDoc", "Scribble", "JSONRT2"}
+		weights := []int{3, 5, 3, 3, 1, 2}
 		ep.Tasks = g.tasksOf(p, g.R.Range(1, 2), 7, kinds, weights)
 		if g.R.P(2, 3) {
 			si := 0
